@@ -26,7 +26,7 @@ impl FTier {
         FTier { thorough: false, exhaustive_cap: 700, ref_budget: 5_000, sample_k: 40, full_cross: true }
     }
     pub fn thorough() -> FTier {
-        FTier { thorough: true, exhaustive_cap: 6_000, ref_budget: 60_000, sample_k: 256, full_cross: true }
+        FTier { thorough: true, exhaustive_cap: 4_000, ref_budget: 40_000, sample_k: 256, full_cross: true }
     }
 }
 
